@@ -19,6 +19,7 @@ import (
 type Clause struct {
 	Kind   string // requires, ensures, invariant, assert
 	Params []string // for parametric lets
+	Site   int      // at-call clauses: restrict to the N-th call site (source order) in the root function; 0 = all
 	Name   string
 	Props map[string]bool // nil = all props of the function
 	Src   string
@@ -319,6 +320,11 @@ func (db *SpecDB) loadFile(pkgPath, file string) error {
 				return fmt.Errorf("%s: bad at-call clause", where)
 			}
 			callee := strings.Replace(strings.TrimSpace(rest[:i]), ") ", ").", 1)
+			site := 0
+			if k := strings.Index(callee, " site "); k >= 0 {
+				fmt.Sscanf(strings.TrimSpace(callee[k+6:]), "%d", &site)
+				callee = strings.TrimSpace(callee[:k])
+			}
 			m := clauseRe.FindStringSubmatch(strings.TrimSpace(rest[i+1:]))
 			if m == nil {
 				return fmt.Errorf("%s: bad at-call clause: %s", where, body)
@@ -334,7 +340,7 @@ func (db *SpecDB) loadFile(pkgPath, file string) error {
 			if nm == "" {
 				nm = fmt.Sprintf("atcall#%d", len(cur.AtCalls[callee])+1)
 			}
-			cur.AtCalls[callee] = append(cur.AtCalls[callee], &Clause{Kind: "assert", Name: nm, Props: parseProps(m[2]), Src: m[4], Expr: ex, Line: where})
+			cur.AtCalls[callee] = append(cur.AtCalls[callee], &Clause{Kind: "assert", Name: nm, Props: parseProps(m[2]), Src: m[4], Expr: ex, Line: where, Site: site})
 		case strings.HasPrefix(body, "let "):
 			rest := strings.TrimSpace(body[4:])
 			i := strings.Index(rest, ":=")
